@@ -115,11 +115,18 @@ class ClohessyWiltshire(AnalyticalPropagator):
 
         # Maneuvers handling
         for man in self.orbit.maneuvers:
-            if isinstance(man, ImpulsiveMan) and date >= man.date:
+            if isinstance(man, ImpulsiveMan) and self.orbit.date < man.date <= date:
+                # a maneuver dated at or before the initial orbit is already
+                # part of its state
                 orb = self._propagate(man.date, orb)
                 orb[3:] += man.dv(orb)
-            elif isinstance(man, ContinuousMan) and date >= man.start:
-                orb = self._propagate(man.start, orb)
+            elif (
+                isinstance(man, ContinuousMan)
+                and man.stop > self.orbit.date
+                and date >= man.start
+            ):
+                # the thrust may already be under way at the date of the initial orbit
+                orb = self._propagate(max(man.start, self.orbit.date), orb)
                 if man.check(date):
                     # If the date of propagation is during a continuous maneuver
                     return self._propagate(date, orb, man.accel(orb))
